@@ -50,6 +50,49 @@ def binsearch (_ : Unit) (toks : List String) : Unit × String :=
     | none => ((), "panic")
   | _ => ((), "bad-op")
 
+def kvInt (toks : List String) (k : String) : Int := ((kv toks k).bind String.toInt?).getD 0
+def kvNat (toks : List String) (k : String) : Nat := ((kv toks k).bind String.toNat?).getD 0
+
+def denomName (id : String) : String := "d" ++ id
+
+/-- `fc lane=… mode=… h=… base=… min=… node=… fees=… gas=… ext=… [ty= gp= cap= tip= egas=]`: the two fee checkers as translated -/
+def feecheck (_ : Unit) (toks : List String) : Unit × String :=
+  match toks with
+  | "fc" :: rest =>
+    let lane := (kv rest "lane").getD "c"
+    let mode := (kv rest "mode").getD "d"
+    let fees : List Go.Coin :=
+      match kv rest "fees" with
+      | some "-" | none => []
+      | some fs => (fs.splitOn ",").filterMap fun e =>
+          match e.splitOn ":" with
+          | [d, a] => a.toInt?.map fun a => (⟨denomName d, a⟩ : Go.Coin)
+          | _ => none
+    let exts : List types_Any :=
+      match kv rest "ext" with
+      | some "-" | none => []
+      | some es => (es.splitOn ",").map fun e =>
+          match e.splitOn ":" with
+          | ["d", t] => { (default : types_Any) with GetCachedValue_is_evertypes_ExtensionOptionDynamicFeeTx := true, GetCachedValue_as_evertypes_ExtensionOptionDynamicFeeTx_MaxPriorityPrice := t.toInt?.getD 0 }
+          | _ => { (default : types_Any) with GetCachedValue_is_evertypes_ExtensionOptionDynamicFeeTx := false }
+    let node := kvInt rest "node"
+    let ctx : types_Context := { (default : types_Context) with BlockHeight := kvInt rest "h", IsCheckTx := mode != "d", IsReCheckTx := mode == "r", MinGasPrices_AmountOf := fun d => if d = denomName "0" then node else 0 }
+    let ek : duallane_EvmKeeperForFeeChecker := { (default : duallane_EvmKeeperForFeeChecker) with GetParams_EvmDenom := denomName "0" }
+    let fk : duallane_FeeMarketKeeperForFeeChecker := { (default : duallane_FeeMarketKeeperForFeeChecker) with GetParams_BaseFee := kvInt rest "base", GetParams_MinGasPrice := kvInt rest "min" }
+    let msg : iface_ProtoMessage_Reset_String :=
+      if lane = "e" then
+        { (default : iface_ProtoMessage_Reset_String) with is_evmtypes_MsgEthereumTx := true, as_evmtypes_MsgEthereumTx_AsTransaction_Gas := kvNat rest "egas", as_evmtypes_MsgEthereumTx_AsTransaction_GasFeeCap := kvInt rest "cap", as_evmtypes_MsgEthereumTx_AsTransaction_GasPrice := kvInt rest "gp", as_evmtypes_MsgEthereumTx_AsTransaction_GasTipCap := kvInt rest "tip", as_evmtypes_MsgEthereumTx_AsTransaction_Type' := kvNat rest "ty" }
+      else { (default : iface_ProtoMessage_Reset_String) with is_evmtypes_MsgEthereumTx := false }
+    let tx : types_Tx := { (default : types_Tx) with GetMsgs := [msg], is_sdk_FeeTx := true, as_sdk_FeeTx_GetFee := fees, as_sdk_FeeTx_GetGas := kvNat rest "gas", as_sdk_FeeTx_is_sdkauthante_HasExtensionOptionsTx := true, as_sdk_FeeTx_as_sdkauthante_HasExtensionOptionsTx_GetExtensionOptions := exts }
+    let r := if lane = "e" then duallane_EthereumTxFeeChecker ek fk ctx tx else duallane_CosmosTxFeeChecker ek fk ctx tx
+    match r with
+    | none => ((), "panic")
+    | some (_, _, some e) => ((), "err " ++ e)
+    | some (coins, prio, none) =>
+      let f := match coins with | c :: _ => toString c.Amount | [] => "-"
+      ((), s!"ok fee={f} prio={prio}")
+  | _ => ((), "bad-op")
+
 end GenDriver
 
 def main (args : List String) : IO UInt32 := do
@@ -58,4 +101,5 @@ def main (args : List String) : IO UInt32 := do
   match args with
   | ["feemarket"] => Driver.loop stdin stdout GenDriver.feemarket (); return 0
   | ["binsearch"] => Driver.loop stdin stdout GenDriver.binsearch (); return 0
+  | ["feecheck"] => Driver.loop stdin stdout GenDriver.feecheck (); return 0
   | _ => IO.eprintln "usage: gendriver <engine>"; return 2
